@@ -538,7 +538,12 @@ func flowOf(n ast.Node) []string {
 				} else {
 					die("WithActivation: after is not a func literal")
 				}
-				res = append(res, "fork:"+name+":before["+strings.Join(b, ",")+"]:after["+strings.Join(a, ",")+"]")
+				// flattened so that the Lean side can inspect it with list functions only
+				res = append(res, "fork:"+name, "before[")
+				res = append(res, b...)
+				res = append(res, "]", "after[")
+				res = append(res, a...)
+				res = append(res, "]")
 				return false
 			}
 			// arguments first (evaluation order), except func literals of AuthorizeWithOwner which only read
@@ -609,6 +614,44 @@ func trims(p *pkg, fname string) bool {
 // ---- Lean emission -----------------------------------------------------------------------------------------------
 
 func q(s string) string { return strconv.Quote(s) }
+
+func bytesLit(s string) string {
+	parts := make([]string, len(s))
+	for i := 0; i < len(s); i++ {
+		parts[i] = strconv.Itoa(int(s[i]))
+	}
+	return "[" + strings.Join(parts, ", ") + "]"
+}
+
+// pkOf maps the parser / conversion calls found in a case body to the model's parse kind; unknown combination = error.
+func pkOf(calls []string) string {
+	switch strings.Join(calls, "+") {
+	case "strconv.Atoi":
+		return "atoi"
+	case "strconv.ParseInt":
+		return "int64"
+	case "strconv.ParseUint+currency.Coin":
+		return "uint64coin"
+	case "strconv.ParseFloat":
+		return "float"
+	case "strconv.ParseFloat+currency.ParseZCN":
+		return "zcn"
+	case "strconv.ParseFloat+currency.MultFloat64":
+		return "mult1e10"
+	case "strconv.ParseFloat+currency.Coin":
+		return "rawCoin"
+	case "time.ParseDuration":
+		return "dur"
+	case "strconv.ParseBool":
+		return "bool"
+	case "hex.DecodeString":
+		return "hex"
+	case "":
+		return "raw"
+	}
+	die("unknown combination of parser calls: %v", calls)
+	return ""
+}
 
 func leanStrList(xs []string) string {
 	qs := make([]string, len(xs))
@@ -840,7 +883,7 @@ func writeLean(path string, o *Out) {
 			if i == len(es)-1 {
 				sep = ""
 			}
-			fmt.Fprintf(&b, "  ⟨%s, CT.%s, %v, %s⟩%s\n", q(e.Name), e.CT, e.Mutable, q(e.Setter), sep)
+			fmt.Fprintf(&b, "  ⟨%s, %s, CT.%s, %v, %s⟩%s\n", q(e.Name), bytesLit(e.Name), e.CT, e.Mutable, q(e.Setter), sep)
 		}
 		b.WriteString("]\n\n")
 	}
@@ -855,7 +898,7 @@ func writeLean(path string, o *Out) {
 			if i == len(ds)-1 {
 				sep = ""
 			}
-			fmt.Fprintf(&b, "  ⟨CT.%s, %s, %s⟩%s\n", d.CT, leanStrList(d.Parse), q(d.Setter), sep)
+			fmt.Fprintf(&b, "  ⟨CT.%s, PK.%s, %s⟩%s\n", d.CT, pkOf(d.Parse), q(d.Setter), sep)
 		}
 		b.WriteString("]\n\n")
 	}
@@ -869,7 +912,7 @@ func writeLean(path string, o *Out) {
 			if i == len(ks)-1 {
 				sep = ""
 			}
-			fmt.Fprintf(&b, "  ⟨%s, %s, %s⟩%s\n", q(k.Name), leanStrList(k.Parse), leanStrList(k.Calls), sep)
+			fmt.Fprintf(&b, "  ⟨%s, %s, PK.%s, %s⟩%s\n", q(k.Name), bytesLit(k.Name), pkOf(k.Parse), leanStrList(k.Calls), sep)
 		}
 		b.WriteString("]\n")
 		fmt.Fprintf(&b, "def %sDefault : List String := %s\n", name, leanStrList(d))
